@@ -60,3 +60,102 @@ func VerifC03Ref() {
 }
 
 var _ = bytes.Equal
+
+func assumeASCII(b []byte) {
+	for i := range b {
+		rt.Assume(b[i] < 0x80)
+	}
+}
+
+func symName(max int) string {
+	n := rt.IntRange(1, max)
+	b := rt.Bytes(n)
+	assumeASCII(b)
+	for i := range b {
+		rt.Assume(b[i] != '\n')
+	}
+	rt.Assume(!refIsSpace(b[0]))
+	rt.Assume(!refIsSpace(b[n-1]))
+	return string(b)
+}
+
+func symBody(max int) []byte {
+	n := rt.IntRange(0, max)
+	b := rt.Bytes(n)
+	assumeASCII(b)
+	if n > 0 {
+		rt.Assume(b[n-1] == '\n')
+	}
+	rt.Assume(!refHasMarkerLine(b))
+	return b
+}
+
+// VerifC03WellFormed: Parse(Format(a)) == a for well-formed archives built
+// from symbolic comment, names and bodies.
+func VerifC03WellFormed() {
+	k := rt.IntRange(0, rt.Param("K", 2))
+	L := rt.Param("L", 4)
+	a := &Archive{Comment: symBody(L)}
+	for i := 0; i < k; i++ {
+		a.Files = append(a.Files, File{Name: symName(rt.Param("NL", 2)), Data: symBody(L)})
+	}
+	if k == 2 {
+		rt.Reach("two-files")
+	}
+	b := Parse(Format(a))
+	rt.Assert(len(b.Files) == k, "wellformed-file-count")
+	rt.Assert(archEq(a, b), "wellformed-roundtrip")
+}
+
+// VerifC03CRLF: on CR-free input, turning the LF that ends a marker line
+// into CRLF (or adding CR / CRLF after a final unterminated marker line)
+// changes neither names nor file data nor the comment.
+func VerifC03CRLF() {
+	n := rt.IntRange(1, rt.Param("N", 8))
+	data := rt.Bytes(n)
+	assumeASCII(data)
+	for i := range data {
+		rt.Assume(data[i] != '\r')
+	}
+	// choose the end of a line: position i of an LF, or n for an unterminated last line
+	i := rt.IntRange(0, n)
+	if i < n {
+		rt.Assume(data[i] == '\n')
+	}
+	start := i
+	for start > 0 && data[start-1] != '\n' {
+		start--
+	}
+	rt.Assume(refIsMarkerLine(data[start:i]))
+	rt.Reach("marker-line-chosen")
+	a := Parse(data)
+	mod := make([]byte, 0, n+2)
+	mod = append(mod, data[:i]...)
+	mod = append(mod, '\r')
+	if i < n {
+		mod = append(mod, data[i:]...)
+	} else if rt.Bool() {
+		mod = append(mod, '\n')
+		rt.Reach("eof-crlf")
+	} else {
+		rt.Reach("eof-cr")
+	}
+	b := Parse(mod)
+	rt.Assert(len(a.Files) == len(b.Files), "crlf-file-count")
+	rt.Assert(archEq(a, b), "crlf-same-archive")
+}
+
+// VerifC03WellFormedBig: one file whose body and comment are long enough to
+// hold marker look-alikes (but, by the reference predicate, no marker line).
+func VerifC03WellFormedBig() {
+	L := rt.Param("L", 8)
+	a := &Archive{Comment: symBody(3)}
+	body := symBody(L)
+	if len(body) >= 8 {
+		rt.Reach("body-long-enough-for-marker")
+	}
+	a.Files = append(a.Files, File{Name: symName(1), Data: body})
+	b := Parse(Format(a))
+	rt.Assert(len(b.Files) == 1, "wellformed-big-file-count")
+	rt.Assert(archEq(a, b), "wellformed-big-roundtrip")
+}
